@@ -19,7 +19,7 @@ EXPLANATION = (
     "every nesting/mapping shape; (R2) every user callable whose result may be awaited by the async executors is invoked under the permit whenever a "
     "limiter is installed (gate routing functions are exempt: construction rejects async/generator routing functions, checked); (R3) every "
     "Semaphore construction is guarded by 'no limiter installed in this context', so one limiter governs the whole call tree; (R4) every installed "
-    "limiter token is reset on all exits (finally); (R5) the limiter is installed before map item tasks are created, so they inherit it. (R6) the bounded map restores input order exactly like the unbounded one (index and result appended as an atomic pair after the item finished, results sorted by index) — 'same result as the unlimited run'."
+    "limiter token is reset on all exits (finally); (R5) the limiter is installed before map item tasks are created, so they inherit it. (R6) the bounded map restores input order exactly like the unbounded one (index and result appended as an atomic pair after the item finished, results sorted by index) — 'same result as the unlimited run'. (R7) the limit never decides which ready nodes belong to a superstep: the list handed to the superstep is exactly the scheduler's result."
 )
 NOT_DECIDED = "Equality with the unlimited run and fairness/starvation of the asyncio scheduler; that sync routing functions (which take no permit) are counted by an observer as executing bodies."
 
